@@ -121,6 +121,8 @@ type Engine struct {
 	base     *interpBase
 	cur      *interpreter
 	localQ   int
+
+	nDecisions, nCachedSat, nCachedUnsat int64
 }
 
 type pathAbort struct{ why string }
@@ -212,9 +214,11 @@ func (e *Engine) query(extra *Term, wantModel bool, timeoutMs int) (string, map[
 		v, ok := qcache[key]
 		qcacheMu.RUnlock()
 		if ok {
-			e.sh.mu.Lock()
-			e.sh.St.Queries["cached-"+v]++
-			e.sh.mu.Unlock()
+			if v == "sat" {
+				e.nCachedSat++
+			} else {
+				e.nCachedUnsat++
+			}
 			return v, nil
 		}
 	}
@@ -236,7 +240,7 @@ func (e *Engine) query(extra *Term, wantModel bool, timeoutMs int) (string, map[
 		qcache[key] = r
 		qcacheMu.Unlock()
 	}
-	if SlowLog != nil && d > 2*time.Second {
+	if SlowLog != nil && d > SlowThreshold {
 		x := "<pc only>"
 		if extra != nil {
 			x = extra.Plain()
@@ -258,6 +262,9 @@ func (e *Engine) query(extra *Term, wantModel bool, timeoutMs int) (string, map[
 
 // SlowLog, when set, receives a line for every query slower than 2 s.
 var SlowLog io.Writer
+
+// SlowThreshold is the duration above which a query is logged to SlowLog.
+var SlowThreshold = 2 * time.Second
 
 // queryFallback asks a second solver (fresh context) for pc ∧ extra.
 func (e *Engine) queryFallback(extra *Term, wantModel bool, timeoutMs int) (string, map[string]uint64) {
@@ -327,9 +334,7 @@ func (e *Engine) decide(c *Term) bool {
 	} else {
 		e.pc = append(e.pc, Not(c))
 	}
-	e.sh.mu.Lock()
-	e.sh.St.Decisions++
-	e.sh.mu.Unlock()
+	e.nDecisions++
 	return d
 }
 
@@ -591,6 +596,10 @@ func (e *Engine) runPath(prefix []dec) {
 	st := &e.sh.St
 	st.Instrs += i.instrs
 	st.Intercepted += i.intercepted
+	st.Decisions += e.nDecisions
+	st.Queries["cached-sat"] += int(e.nCachedSat)
+	st.Queries["cached-unsat"] += int(e.nCachedUnsat)
+	e.nDecisions, e.nCachedSat, e.nCachedUnsat = 0, 0, 0
 	if e.nontriv {
 		st.PathsNontrivial++
 	}
